@@ -171,7 +171,16 @@ fn downstream(a: &Attribute) -> Val {
         i(0)
     });
     let ins = caught(|| insert_next_to_competitor(a));
-    Val::L(vec![aspl, enc, list, ins])
+    // listed and given back: 0 the same value, 1 another value, 2 refused
+    let relist = if matches!(a.code(), Attribute::TUNNEL_ENCAP | Attribute::LS | Attribute::PREFIX_SID) {
+        i(0)
+    } else {
+        caught(|| match attr_from_api(attr_to_api(a)) {
+            Ok(b) => i(if &b == a { 0 } else { 1 }),
+            Err(_) => i(2),
+        })
+    };
+    Val::L(vec![aspl, enc, list, ins, relist])
 }
 
 // kind 1
@@ -197,7 +206,8 @@ fn run_api_nlri(l: &[Val]) -> Val {
         Err(_) => Val::L(vec![i(0)]),
         Ok(n) => {
             let enc = caught(|| Val::from_bytes(&n.encode_to_bytes()));
-            Val::L(vec![i(1), nlri_val(&n), enc])
+            let relist = caught(|| net_from_api_val(net_from_api(nlri_to_api(&n), Family::IPV4)));
+            Val::L(vec![i(1), nlri_val(&n), enc, relist])
         }
     }
 }
@@ -375,9 +385,110 @@ fn run_evpn(l: &[Val]) -> Val {
     Val::L(vec![api_evpn_val(&x), back])
 }
 
+// the NLRI as the repository's own decoder reads it back from the bytes of Nlri::encode, inside an
+// MP_REACH of `family` (None when the UPDATE does not decode to exactly this one NLRI)
+fn redecode(n: &Nlri, family: Family) -> Option<Nlri> {
+    let body = n.encode_to_bytes();
+    let mut mp = vec![(family.afi() >> 8) as u8, family.afi() as u8, family.safi()];
+    let flowspec = matches!(
+        family,
+        Family::IPV4_FLOWSPEC | Family::IPV6_FLOWSPEC | Family::IPV4_FLOWSPEC_VPN | Family::IPV6_FLOWSPEC_VPN
+    );
+    if flowspec {
+        mp.push(0);
+    } else {
+        mp.extend_from_slice(&[4, 192, 0, 2, 1]);
+    }
+    mp.push(0);
+    mp.extend_from_slice(&body);
+    let mut attrs = wire_attr(0x40, 1, &[0]);
+    attrs.extend_from_slice(&wire_attr(0x40, 2, &[]));
+    attrs.extend_from_slice(&wire_attr(0x90, 14, &mp));
+    let msg = update_with_attrs(&attrs, &[]);
+    let mut codec = PeerCodec::new();
+    codec.extended_length = true;
+    for f in ALL_FAMILIES {
+        codec.set_family(f, bgp::FamilyState { addpath_rx: false, addpath_tx: false });
+    }
+    match codec.parse_message(&msg) {
+        Ok(bgp::ParsedMessage::Update(bgp::ParsedUpdate::Routes { mp_reach: Some(r), .. })) if r.entries.len() == 1 => {
+            Some(r.entries[0].nlri.clone())
+        }
+        _ => None,
+    }
+}
+
+// kind 8: [8, family, api nlri]: an API NLRI message of the families without a (complete) model.
+// observation: [0] refused | [1, display text, wire bytes, redecoded == accepted, relisted == accepted, api form listed]
+fn run_api_xnlri(l: &[Val]) -> Val {
+    let f = l[1].u32();
+    let family = Family::new((f >> 16) as u16, (f & 0xff) as u8);
+    // as GrpcService::local_path does: net_from_api, then the family check
+    match net_from_api(api_xnlri_of(&l[2]), family) {
+        Err(_) => Val::L(vec![i(0)]),
+        Ok(n) if !nlri_matches_family(&n, family) => Val::L(vec![i(0)]),
+        Ok(n) => {
+            let bytes = caught(|| Val::from_bytes(&n.encode_to_bytes()));
+            let redec = caught(|| Val::b(redecode(&n, family).as_ref() == Some(&n)));
+            let listed = caught(|| api_xnlri_val(&nlri_to_api(&n)));
+            let relist = caught(|| match net_from_api(nlri_to_api(&n), family) {
+                Ok(b) => i(if b == n { 0 } else { 1 }),
+                Err(_) => i(2),
+            });
+            Val::L(vec![i(1), s_val(&format!("{}", n)), bytes, redec, relist, listed])
+        }
+    }
+}
+
+// kind 9: [9, 0, PrefixSid message] / [9, 1, TunnelEncap message] / [9, 2, LsAttribute message]: a typed message of an attribute whose value is a TLV tree.
+// observation: [0] refused | [1, value bytes, the packet decoder reads the value, listed and added again: 0 same / 1 changed / 2 refused,
+//               the listing: the typed message, or [99] for the raw form]
+fn run_api_typed(l: &[Val]) -> Val {
+    let which = l[1].int();
+    let msg = if which == 0 {
+        api::attribute::Attr::PrefixSid(prefix_sid_api_of(&l[2]))
+    } else if which == 1 {
+        api::attribute::Attr::TunnelEncap(tunnel_encap_api_of(&l[2]))
+    } else {
+        api::attribute::Attr::Ls(ls_attr_api_of(&l[2]))
+    };
+    match attr_from_api(api::Attribute { attr: Some(msg) }) {
+        Err(_) => Val::L(vec![i(0)]),
+        Ok(a) => {
+            let bytes = a.binary().unwrap().clone();
+            let dec = caught(|| {
+                if which == 0 {
+                    Val::b(prefix_sid::PrefixSid::decode(&bytes).is_ok())
+                } else if which == 2 {
+                    let mut again = Vec::new();
+                    for t in ls::parse_ls_attr(&bytes) {
+                        t.encode(&mut again);
+                    }
+                    Val::b(again == bytes)
+                } else {
+                    Val::b(packet::tunnel_encap::encode(&packet::tunnel_encap::decode(&bytes)) == bytes)
+                }
+            });
+            let relist = caught(|| match attr_from_api(attr_to_api(&a)) {
+                Ok(b) => i(if b == a { 0 } else { 1 }),
+                Err(_) => i(2),
+            });
+            let listed = caught(|| match attr_to_api(&a).attr {
+                Some(api::attribute::Attr::PrefixSid(p)) => prefix_sid_api_val(&p),
+                Some(api::attribute::Attr::TunnelEncap(t)) => tunnel_encap_api_val(&t),
+                Some(api::attribute::Attr::Ls(x)) => ls_attr_api_val(&x),
+                _ => Val::L(vec![i(99)]),
+            });
+            Val::L(vec![i(1), bytes_digest_val(&bytes), dec, relist, listed, Val::n(a.code()), Val::n(a.flags())])
+        }
+    }
+}
+
 fn run_case(case: &Val) -> Val {
     let l = case.list();
     match l[0].int() {
+        9 => run_api_typed(l),
+        8 => run_api_xnlri(l),
         6 => run_api_evpn(l),
         7 => run_evpn(l),
         4 => run_wide(l),
